@@ -575,6 +575,21 @@ impl ZmtpEngine {
         .get("Identity")
         .map(|v| Blob::from(v.clone()));
 
+      // Same pairing rule as the ZMTP/2.0 greeting: refuse a peer whose announced
+      // socket type is not a valid partner for ours.
+      if let Some(ref peer_type) = peer_socket_type {
+        if !socket_types_compatible(self.config.socket_type_name.as_str(), peer_type) {
+          self.fail(
+            out,
+            ZmqError::ProtocolViolation(format!(
+              "Incompatible sockets: local {} <-> peer {}",
+              self.config.socket_type_name, peer_type
+            )),
+          );
+          return;
+        }
+      }
+
       if self.is_server {
         // Server received client READY → send server READY then complete.
         self.emit_local_ready(out);
@@ -761,35 +776,11 @@ impl ZmtpEngine {
   /// Validates that our local socket type is compatible with the peer's ZMTP/2.0
   /// socket-type byte (e.g. PUSH↔PULL, REQ↔REP/ROUTER).
   fn validate_v2_compatibility(&self, peer_byte: u8) -> Result<(), ZmqError> {
-    use super::greeting::*;
     let peer_name = socket_type_name_from_code(peer_byte).ok_or_else(|| {
       ZmqError::ProtocolViolation(format!("v2 peer used unknown socket-type byte {:#04x}", peer_byte))
     })?;
     let own = self.config.socket_type_name.as_str();
-    let ok = matches!(
-      (own, peer_byte),
-      ("PULL", V2_SOCKET_TYPE_PUSH)
-        | ("PUSH", V2_SOCKET_TYPE_PULL)
-        | ("PUB", V2_SOCKET_TYPE_SUB)
-        | ("SUB", V2_SOCKET_TYPE_PUB)
-        | ("PUB", V2_SOCKET_TYPE_XSUB)
-        | ("XSUB", V2_SOCKET_TYPE_PUB)
-        | ("XPUB", V2_SOCKET_TYPE_SUB)
-        | ("SUB", V2_SOCKET_TYPE_XPUB)
-        | ("XPUB", V2_SOCKET_TYPE_XSUB)
-        | ("XSUB", V2_SOCKET_TYPE_XPUB)
-        | ("REQ", V2_SOCKET_TYPE_REP)
-        | ("REP", V2_SOCKET_TYPE_REQ)
-        | ("REQ", V2_SOCKET_TYPE_ROUTER)
-        | ("ROUTER", V2_SOCKET_TYPE_REQ)
-        | ("REP", V2_SOCKET_TYPE_DEALER)
-        | ("DEALER", V2_SOCKET_TYPE_REP)
-        | ("DEALER", V2_SOCKET_TYPE_ROUTER)
-        | ("ROUTER", V2_SOCKET_TYPE_DEALER)
-        | ("DEALER", V2_SOCKET_TYPE_DEALER)
-        | ("ROUTER", V2_SOCKET_TYPE_ROUTER)
-        | ("PAIR", V2_SOCKET_TYPE_PAIR)
-    );
+    let ok = socket_types_compatible(own, peer_name);
     if !ok {
       return Err(ZmqError::ProtocolViolation(format!(
         "Incompatible ZMTP/2.0 sockets: local {} <-> peer {}",
@@ -856,6 +847,36 @@ impl ZmtpEngine {
 }
 
 // --- Module-level helpers ---
+
+/// The ZeroMQ socket pairing table (PUSH-PULL, PUB/XPUB-SUB/XSUB, REQ-REP/ROUTER,
+/// DEALER-REP/ROUTER/DEALER, ROUTER-ROUTER, PAIR-PAIR), shared by the ZMTP/2.0 greeting
+/// check and the ZMTP/3.x READY check so both give the same verdict.
+fn socket_types_compatible(own: &str, peer: &str) -> bool {
+  matches!(
+    (own, peer),
+    ("PULL", "PUSH")
+      | ("PUSH", "PULL")
+      | ("PUB", "SUB")
+      | ("SUB", "PUB")
+      | ("PUB", "XSUB")
+      | ("XSUB", "PUB")
+      | ("XPUB", "SUB")
+      | ("SUB", "XPUB")
+      | ("XPUB", "XSUB")
+      | ("XSUB", "XPUB")
+      | ("REQ", "REP")
+      | ("REP", "REQ")
+      | ("REQ", "ROUTER")
+      | ("ROUTER", "REQ")
+      | ("REP", "DEALER")
+      | ("DEALER", "REP")
+      | ("DEALER", "ROUTER")
+      | ("ROUTER", "DEALER")
+      | ("DEALER", "DEALER")
+      | ("ROUTER", "ROUTER")
+      | ("PAIR", "PAIR")
+  )
+}
 
 fn local_mechanism_name_bytes(config: &ZmtpEngineConfig) -> &'static [u8; MECHANISM_LENGTH] {
   #[cfg(feature = "plain")]
